@@ -4,6 +4,7 @@ import (
 	"fmt"
 	"iter"
 	"sort"
+	"sync"
 )
 
 // Map iteration order policies (the seam behind every `range` over a map in
@@ -159,14 +160,23 @@ func RangeMap[M ~map[K]V, K comparable, V any](site int, m M) iter.Seq2[K, V] {
 	}
 }
 
-//go:norace
+var permMu sync.Mutex
+
 func notePerm(site int, h uint64) {
-	// only used by single-task checks (C15/C06); never while tasks race
-	if active && ntasks > 1 {
+	// coverage bookkeeping only. Skipped while several tasks are simulated (a
+	// lock here would add happens-before edges between them); outside a
+	// simulation the library may run goroutines of its own for real, hence the
+	// lock.
+	if simulatingMany() {
 		return
 	}
+	permMu.Lock()
 	if PermSeen == nil {
 		PermSeen = make(map[uint64]struct{})
 	}
 	PermSeen[mix(uint64(site), h)] = struct{}{}
+	permMu.Unlock()
 }
+
+//go:norace
+func simulatingMany() bool { return active && ntasks > 1 }
